@@ -587,8 +587,8 @@ def undelivered(case, obs):
     """bounded liveness on the implementation's log ("every registered socket that is readable, writable-with-backlog, acceptable or
     connected is EVENTUALLY dispatched"): a registered socket the simulated epoll reported with an event kind of its interest must be
     dispatched (first observable effect of the dispatch) before the loop has come back from LEVEL_WAITS further epoll_wait calls (calls
-    that end run() - an interrupt arrived together with the events - do not count), unless it was re-registered or removed meanwhile.  The simulated epoll is level triggered (what was reported and not acted upon is reported again by
-    every later epoll_wait, and the end of the script is held back for up to 3 such calls), so a loop that merely drops a buffered event
+    that end run() - an interrupt arrived together with the events - do not count), unless it was re-registered or removed meanwhile.
+    The simulated epoll is level triggered (what was reported and not acted upon is reported again by every later epoll_wait, and the end of the script is held back for up to 3 such calls), so a loop that merely drops a buffered event
     and picks it up from the next epoll_wait passes, a loop that never serves the socket does not.  Returns a reason or None."""
     runs = [l.split()[1:] for l in case if l.split() and l.split()[0] == 'run']
     nrun = 0
@@ -597,6 +597,23 @@ def undelivered(case, obs):
     reg = {}
     expect = {}
     tocount = None       # the sockets that were waiting for their dispatch when the loop entered epoll_wait (line number of that wait)
+    cur = None           # [entries of the script item being handed out, first entry not yet reported, line] (a caller with a smaller array gets it in pieces)
+
+    def parse(it):
+        out = []
+        if ':' in it:
+            for part in it.split(':', 1)[1].split(','):
+                if part:
+                    e, b = part.split('=')
+                    out.append((e, int(b)))
+        return out
+
+    def report(entries, at):
+        for e, b in entries:
+            if e in reg:
+                fl = unmap(b, reg[e], e[0])
+                if fl and e not in expect:
+                    expect[e] = ('W' if 'W' in fl else sorted(fl)[0], at, 0)
 
     def served(e, kinds):
         if e in expect and expect[e][0] in kinds:
@@ -606,7 +623,22 @@ def undelivered(case, obs):
         t = l.split()
         if not t:
             continue
-        if tocount is not None and t[0] not in ('item', 'rereport', 'interrupt'):
+        if cur is not None and cur[3]:          # the rest of the item comes with the next call (`item more`)
+            if t[0] == 'item' and t[1] == 'more':
+                cur[2], cur[3] = n, False
+        elif cur is not None:
+            if t[0] == 'partial':
+                report(cur[0][cur[1]:int(t[1])], cur[2])
+                cur[1], cur[3] = int(t[1]), True
+                continue
+            if t[0] == 'merged':                 # a caller with a larger array takes the continuation item in the same call
+                report(cur[0][cur[1]:], cur[2])
+                cur = [parse(items[k]) if k < len(items) else [], 0, n, False]
+                k += 1
+                continue
+            report(cur[0][cur[1]:], cur[2])
+            cur = None
+        if tocount is not None and t[0] not in ('item', 'rereport', 'interrupt', 'partial', 'merged'):
             waiting, at_wait = tocount
             tocount = None
             if t[0] != 'ret':
@@ -635,17 +667,8 @@ def undelivered(case, obs):
             tocount = (set(expect), n)
         elif t[0] == 'item' and t[1] == 'script':
             if k < len(items):
-                it = items[k]
+                cur = [parse(items[k]), 0, n, False]
                 k += 1
-                if ':' in it:
-                    for part in it.split(':', 1)[1].split(','):
-                        if not part:
-                            continue
-                        e, b = part.split('=')
-                        if e in reg:
-                            fl = unmap(int(b), reg[e], e[0])
-                            if fl and e not in expect:
-                                expect[e] = ('W' if 'W' in fl else sorted(fl)[0], n, 0)
         elif t[0] == 'send' and t[-1] == 'd':
             served(t[1], 'W')
         elif t[0] == 'cb' and t[2] == 'write':
